@@ -65,7 +65,9 @@ func c13Cases() []c13Case {
 		c13Case{name: "save-existing-upsert", records: names[:1], phases: updatePhases, valAt: 1,
 			run: func(db *gorm.DB) *gorm.DB { return db.Save(&HRec{ID: 4, Name: "r1"}) }},
 		c13Case{name: "updates-map", records: names[:1], phases: updatePhases, valAt: -1,
-			run: func(db *gorm.DB) *gorm.DB { return db.Model(&HRec{ID: 4, Name: "r1"}).Updates(map[string]interface{}{"val": 2}) }},
+			run: func(db *gorm.DB) *gorm.DB {
+				return db.Model(&HRec{ID: 4, Name: "r1"}).Updates(map[string]interface{}{"val": 2})
+			}},
 		c13Case{name: "updates-struct-self", records: names[:1], phases: updatePhases, valAt: -1,
 			run: func(db *gorm.DB) *gorm.DB { return db.Updates(&HRec{ID: 4, Name: "r1"}) }},
 		c13Case{name: "update-single", records: names[:1], phases: updatePhases, valAt: -1,
@@ -91,7 +93,10 @@ func c13Cases() []c13Case {
 				return db.Create(&[]HWorker{{Name: "w1", Boss: b}, {Name: "w2", Boss: b}})
 			}},
 		c13Case{name: "skiphooks-create", records: nil, phases: nil, valAt: -1,
-			run: func(db *gorm.DB) *gorm.DB { r := c13Recs(2); return db.Session(&gorm.Session{SkipHooks: true}).Create(&r) }},
+			run: func(db *gorm.DB) *gorm.DB {
+				r := c13Recs(2)
+				return db.Session(&gorm.Session{SkipHooks: true}).Create(&r)
+			}},
 		c13Case{name: "skiphooks-updates-delete-find", records: nil, phases: nil, valAt: -1,
 			run: func(db *gorm.DB) *gorm.DB {
 				tx := db.Session(&gorm.Session{SkipHooks: true})
@@ -103,7 +108,9 @@ func c13Cases() []c13Case {
 		c13Case{name: "update-column", records: nil, phases: nil, valAt: -1,
 			run: func(db *gorm.DB) *gorm.DB { return db.Model(&HRec{ID: 4, Name: "r1"}).UpdateColumn("name", "zz") }},
 		c13Case{name: "update-columns", records: nil, phases: nil, valAt: -1,
-			run: func(db *gorm.DB) *gorm.DB { return db.Model(&HRec{ID: 4, Name: "r1"}).UpdateColumns(HRec{Name: "zz", Val: 3}) }},
+			run: func(db *gorm.DB) *gorm.DB {
+				return db.Model(&HRec{ID: 4, Name: "r1"}).UpdateColumns(HRec{Name: "zz", Val: 3})
+			}},
 	)
 	return cs
 }
